@@ -130,8 +130,43 @@ package testing
 //@
 //@ // ---- C07/C06: recovery. handlePanic classifies a recovered value: nil = no panic, the FailNow sentinel =
 //@ // already marked by FailNow, anything else = mark failed now.
+//@ // C20 / C07: a timed stage does not swallow a stop: if the stage function ends by FailNow or a panic, so does Time
+//@ // (the rest of the component and the later components of a combined scenario do not run)
+//@ ghost var GTstagePanicked bool
+//@ fnspec stageFn()
+//@   maypanic
+//@   modifies all
+//@
+//@ func (*T).Time
+//@   props C20 C07 C06
+//@   maypanic
+//@   requires t != nil && f != nil
+//@   dyncall f : stageFn
+//@   ghost at entry : GTstagePanicked = false
+//@   ghost onpanic call dyn:f : GTstagePanicked = true
+//@   ensures [a-stage-that-stops-is-not-swallowed] !GTstagePanicked
+//@
+//@ func recordTime
+//@   props C20 C07 C06
+//@   trusted records the stage duration metric; no effect on the failure flags
+//@   modifies nothing
+//@
+//@ // the panic value is arbitrary scenario data: classifying it (errors.Is -> its Is/Unwrap methods) and rendering it
+//@ // (ErrorAttr -> its Error method) runs scenario code that may panic itself; handlePanic's own deferred function
+//@ // contains that second panic and still marks the failure
+//@ func handlePanic$1
+//@   props C07 C06 C08
+//@   recovers
+//@   requires t != nil
+//@   modifies t.failed, t.teardownFailed, Gmarks
+//@   ensures [second-panic-fails] recovered != nil ==> ((t.tearingDown ? t.teardownFailed : t.failed) && Gmarks > old(Gmarks))
+//@   ensures [noop] recovered == nil ==> (t.failed == old(t.failed) && t.teardownFailed == old(t.teardownFailed) && Gmarks == old(Gmarks))
+//@   ensures [monotone] (old(t.failed) ==> t.failed) && (old(t.teardownFailed) ==> t.teardownFailed)
+//@   ensures [other-flag] t.tearingDown ? t.failed == old(t.failed) : t.teardownFailed == old(t.teardownFailed)
+//@
 //@ func handlePanic
 //@   props C07 C06 C08
+//@   arbitrary recovered
 //@   requires t != nil
 //@   requires errorsIs(recovered, errFailNow) ==> (t.tearingDown ? t.teardownFailed : t.failed)
 //@   modifies t.failed, t.teardownFailed, Gmarks
